@@ -925,4 +925,61 @@ theorem applyParts_of_settled {ps : List DescrPart} {t : Tables} (w : t.Wf) (h :
     rw [List.foldl_cons, applyPart_of_settled w (h p (by simp))]
     exact ih (fun q hq => h q (by simp [hq]))
 
+/-! ### reports drawn from a coherent pool -/
+
+theorem applyReport_coherent {pool : List Source} {c : Core} {r : Report} (hc : Coherent pool)
+    (hr : Source.ofReport r ∈ pool) (hseq : r.vg.seq = c.vg.seq) (w : c.tabs.Wf) (hj : Justified pool c) :
+    Mono (·.dh) (·.sv) c.tabs.states (applyReport c r).1.tabs.states ∧
+    Mono (·.h) (·.sv) c.tabs.cstates (applyReport c r).1.tabs.cstates ∧
+    Justified pool (applyReport c r).1 := by
+  by_cases hv : c.vg.ver ≤ r.vg.ver
+  · have hvg : (applyReport c r).1.vg = r.vg := by rw [applyReport_vg]; simp [hv]
+    refine ⟨?_, ?_, ?_, ?_⟩
+    · intro k a b ha hb
+      have hbm := lookupBy_some_mem _ hb
+      rcases applyReport_states_origin hbm.1 with h | h
+      · have := lookupBy_of_mem_nodup (·.dh) w.s h
+        rw [hbm.2, ha] at this
+        cases this; exact Nat.le_refl _
+      · have ham := lookupBy_some_mem _ ha
+        obtain ⟨sa, hsa, hs1, hs2, hs3⟩ := hj.1 a ham.1
+        exact (hc sa hsa _ hr (by rw [hs1]; exact hseq.symm) (Nat.le_trans hs2 hv)).1 a hs3 b h
+          (by rw [ham.2, hbm.2])
+    · intro k a b ha hb
+      have hbm := lookupBy_some_mem _ hb
+      rcases applyReport_cstates_origin hbm.1 with h | h
+      · have := lookupBy_of_mem_nodup (·.h) w.c h
+        rw [hbm.2, ha] at this
+        cases this; exact Nat.le_refl _
+      · have ham := lookupBy_some_mem _ ha
+        obtain ⟨sa, hsa, hs1, hs2, hs3⟩ := hj.2 a ham.1
+        exact (hc sa hsa _ hr (by rw [hs1]; exact hseq.symm) (Nat.le_trans hs2 hv)).2 a hs3 b h
+          (by rw [ham.2, hbm.2])
+    · intro x hx
+      rw [hvg]
+      rcases applyReport_states_origin hx with h | h
+      · obtain ⟨sa, hsa, hs1, hs2, hs3⟩ := hj.1 x h
+        exact ⟨sa, hsa, by rw [hs1, hseq], Nat.le_trans hs2 hv, hs3⟩
+      · exact ⟨_, hr, rfl, Nat.le_refl _, h⟩
+    · intro x hx
+      rw [hvg]
+      rcases applyReport_cstates_origin hx with h | h
+      · obtain ⟨sa, hsa, hs1, hs2, hs3⟩ := hj.2 x h
+        exact ⟨sa, hsa, by rw [hs1, hseq], Nat.le_trans hs2 hv, hs3⟩
+      · exact ⟨_, hr, rfl, Nat.le_refl _, h⟩
+  · have : applyReport c r = (c, { kind := r.kind }) := applyReport_stale (by omega)
+    rw [this]
+    exact ⟨fun k a b ha hb => by rw [ha] at hb; cases hb; exact Nat.le_refl _,
+      fun k a b ha hb => by rw [ha] at hb; cases hb; exact Nat.le_refl _, hj⟩
+
+theorem applyAll_justified {pool : List Source} (hcoh : Coherent pool) (q : Nat) :
+    ∀ (rs : List Report) (c : Core), Justified pool c → c.tabs.Wf → c.vg.seq = q →
+      (∀ r ∈ rs, Source.ofReport r ∈ pool ∧ r.vg.seq = q) → Justified pool (applyAll c rs).1
+  | [], _, hj, _, _, _ => hj
+  | r :: rs, c, hj, hw, hseq, hsub => by
+    have h1 := hsub r (by simp)
+    have := applyReport_coherent hcoh h1.1 (by rw [h1.2, hseq]) hw hj
+    exact applyAll_justified hcoh q rs (applyReport c r).1 this.2.2 (applyReport_wf r hw)
+      (by rw [applyReport_seq (by rw [h1.2, hseq]), hseq]) (fun x hx => hsub x (by simp [hx]))
+
 end Sdc.Consumer
